@@ -48,7 +48,8 @@ META = {
         "pre_execute/post_execute/post_save/on_error hook, sync return/raise, raising ack), bodies gated so the history is processed in every "
         "order/overlap the limit allows, followed by a saturation probe of A+1 never-finishing messages; in "
         "every quiescent state where the history is finished and only timers are enabled exactly A probe "
-        "bodies must be running. distinct_nontrivial = distinct terminal/saturated per-message logs."
+        "bodies must be running; in every quiescent state where only timers are enabled, a taken message is being processed "
+        "unless all slots are occupied (progress). distinct_nontrivial = distinct terminal/saturated per-message logs."
     ),
     "assumptions": [
         "asyncio semantics as implemented by BaseEventLoop (only clock/selector replaced)",
@@ -82,6 +83,18 @@ class C03World(RecvWorld):
 
     def check_quiescent(self) -> None:
         super().check_quiescent()
+        # progress: when nothing but timers can happen any more, a message that was taken from the broker
+        # has begun processing unless every slot is occupied
+        menu0 = self.enabled()
+        if self.A is not None and all(e[0] == "timer" for e in menu0) and not self.ret:
+            waiting = [k for k in self.taken if k not in self.cb_open and k not in self.cb_done]
+            if waiting and len(self.cb_open) < self.A:
+                self.flag(
+                    "C03:stalled-with-free-slot",
+                    f"messages {waiting} were taken from the broker but are not being processed although only "
+                    f"{len(self.cb_open)} of {self.A} slots are in use and no external event is pending (history "
+                    f"{[m.get('_name') for m in self.msgs[: self.n - self.sc.get('probe', 0)]]})",
+                )
         nprobe = self.sc.get("probe", 0)
         if not nprobe or self.A is None:
             return
